@@ -30,7 +30,7 @@ RULE = (
 )
 ASSUMPTIONS = [
   "the flag-free model (full solve) is the reference for the sleep-enabled model of the same XML at the same state",
-  "round-off allowance 1e-4 relative, violation from 1e-2 relative (first-divergence rule); both solves must report fewer iterations than the limit",
+  "round-off allowance 1e-4 relative, violation from 1e-2 relative (first-divergence rule, one-step horizon: the integration state of the sleep-enabled Data is re-synchronised to the reference after every step); both solves must report fewer iterations than the limit; worlds whose reference problem is degenerate (a row with D > 1e10, non-finite reference) are not judged",
   "trees are forced asleep the way the repository's tests do it: tree_asleep self-cycles written into Data + sleep.update_sleep",
   "c* workspace arrays of Data are scratch: in 'poison' cases they are overwritten with finite garbage before the observed call",
 ]
@@ -129,7 +129,7 @@ def other_viol(rec):
 
 def sig_for(field, ms, nefc_w):
   if ms.is_sparse and nefc_w == 0:
-    return f"compact:sparse:nefc0:stale_qfrc_constraint:{field}"
+    return "compact:sparse:nefc0:stale_qfrc_constraint"
   return f"compact_vs_full:{field}"
 
 
@@ -149,12 +149,38 @@ def force_bound(ds_np, df_np, w, nefc):
   return D * (dq + ro)
 
 
-def compare_world(rec, ms, ds_np, df_np, w, fields, ctx, dofs=None, tally="equiv"):
-  """first-divergence comparison of one world; returns worst verdict."""
+def compare_world(rec, ms, ds_np, df_np, w, fields, ctx, dofs=None, tally="equiv", certify=None):
+  """first-divergence comparison of one world; returns worst verdict.
+
+  certify(w) (optional) re-runs the FULL solver warm-started at the compacted solution: 'stays' means the full solver
+  accepts the compacted acceleration under its own termination rule (difference = solver termination noise).
+  """
   worst = "bit"
   nefc = int(ds_np["nefc"][w])
+  cert = None
   for k in fields:
     a, b = ds_np[k][w], df_np[k][w]
+    if certify is not None and k in ("qacc", "qfrc_constraint", "efc_force") and not (ms.is_sparse and nefc == 0):
+      aa, bb = (a[:nefc], b[:nefc]) if k == "efc_force" else ((a[dofs], b[dofs]) if dofs is not None else (a, b))
+      if k != "efc_force" and aa.size and np.all(np.isfinite(aa)) and np.all(np.isfinite(bb)):
+        sc = max(1.0, float(np.abs(aa).max()), float(np.abs(bb).max()))
+        if float(np.abs(aa.astype(np.float64) - bb.astype(np.float64)).max()) / sc > 1e-4:
+          if cert is None:
+            cert = certify(w)
+          if cert == "stays":
+            rec.check()
+            rec.count(f"{tally}:{k}:explained_by_solver_termination")
+            worst = max(worst, "round", key=lambda r: {"bit": 0, "round": 1, "incon": 2, "viol": 3}[r])
+            continue
+          if cert == "unclear":
+            rec.check()
+            rec.inconcl(f"{k}: differs beyond round-off, full solver neither accepts nor rejects the compacted solution")
+            rec.count(f"{tally}:{k}:incon")
+            worst = max(worst, "incon", key=lambda r: {"bit": 0, "round": 1, "incon": 2, "viol": 3}[r])
+            continue
+      elif k == "efc_force" and cert == "stays":
+        rec.count(f"{tally}:{k}:explained_by_solver_termination")
+        continue
     if k == "efc_force":
       a, b = a[:nefc], b[:nefc]
       oa = ds_np.get("_order", {}).get(w)
@@ -263,6 +289,41 @@ def integrate(mjw, m, d, integ):
     mjw.implicit(m, d)
 
 
+class Certifier:
+  """Runs the full (flag-free) solver warm-started at the compacted solution of the same state."""
+
+  def __init__(self, mjw, mjm_f, mf, sts):
+    self.mjw, self.mjm_f, self.mf, self.sts = mjw, mjm_f, mf, sts
+    self.dp = None
+    self.key = None
+    self.xp = None
+
+  def __call__(self, qpos, qvel, x_s, x_f, key):
+    import warp as wp
+
+    def fn(w):
+      if self.key != key:
+        if self.dp is None:
+          self.dp = mw.make_data(self.mjm_f, self.mf, self.sts, nconmax=NCONMAX, njmax=NJMAX)
+        wp.copy(self.dp.qpos, wp.array(qpos, dtype=float))
+        wp.copy(self.dp.qvel, wp.array(qvel, dtype=float))
+        wp.copy(self.dp.qacc_warmstart, wp.array(np.nan_to_num(x_s).astype(np.float32), dtype=float))
+        self.mjw.forward(self.mf, self.dp)
+        self.xp = self.dp.qacc.numpy().copy()
+        self.key = key
+      xs, xf, xp = x_s[w].astype(np.float64), x_f[w].astype(np.float64), self.xp[w].astype(np.float64)
+      if not (np.all(np.isfinite(xs)) and np.all(np.isfinite(xp))):
+        return "returns"
+      dsf, dps, dpf = np.abs(xs - xf).max(), np.abs(xp - xs).max(), np.abs(xp - xf).max()
+      if dps <= 0.5 * dsf:
+        return "stays"
+      if dpf <= 0.5 * dsf:
+        return "returns"
+      return "unclear"
+
+    return fn
+
+
 # ------------------------------------------------------------------------------------------ equiv
 
 
@@ -282,6 +343,7 @@ def run_equiv(case, rec):
   ds = mw.make_data(mjm_s, ms, sts, nconmax=NCONMAX, njmax=NJMAX)
   df = mw.make_data(mjm_f, mf, sts, nconmax=NCONMAX, njmax=NJMAX)
   prng = np.random.default_rng(case["seed"] + 99)
+  cert = Certifier(mjw, mjm_f, mf, sts)
   any_constraints = False
   nsteps = 30
   tele = sorted(set(int(v) for v in rng.integers(3, nsteps, size=3)))
@@ -305,6 +367,7 @@ def run_equiv(case, rec):
       rec.cover("teleports", int(up.sum()))
     if case["poison"]:
       poison(ds, prng)
+    pre_q, pre_v = df.qpos.numpy().copy(), df.qvel.numpy().copy()
     mjw.forward(ms, ds)
     mjw.forward(mf, df)
     a, f = snap(ds, FWD + ("tree_awake", "ncdof"), ms), snap(df, FWD)
@@ -332,12 +395,18 @@ def run_equiv(case, rec):
         rec.count("equiv:ungated_iterlimit")
         alive[w] = False
         continue
-      if int(a["nefc"][w]):
+      nw = int(a["nefc"][w])
+      if not np.all(np.isfinite(f["qacc"][w])) or (nw and float(np.abs(a["_D"][w][:nw]).max()) > 1e10):
+        # the reference problem itself is degenerate (e.g. a tendon limit row with zero Jacobian => D ~ 1e15) or has blown up
+        rec.count("equiv:ungated_degenerate_reference")
+        alive[w] = False
+        continue
+      if nw:
         any_constraints = True
         rec.count("equiv:worlds_with_constraints")
       else:
         rec.count("equiv:worlds_without_constraints")
-      r = compare_world(rec, ms, a, f, w, ("qacc_smooth", "qacc", "qfrc_constraint", "efc_force"), ctx)
+      r = compare_world(rec, ms, a, f, w, ("qacc_smooth", "qacc", "qfrc_constraint", "efc_force"), ctx, certify=cert(pre_q, pre_v, a["qacc"], f["qacc"], s))
       if r in ("viol", "incon"):
         alive[w] = False  # first divergence: later steps of this world are not judged
     if other_viol(rec) or not alive.any():
@@ -350,6 +419,11 @@ def run_equiv(case, rec):
         r = compare_world(rec, ms, {**qa, "nefc": a["nefc"]}, {**qb, "nefc": f["nefc"]}, w, ("qpos", "qvel"), f"[world {w} after step {s}]", tally="equiv_step")
         if r in ("viol", "incon"):
           alive[w] = False
+    # re-synchronise the integration state (round-off drift would otherwise be amplified by stiff new contacts and be
+    # mistaken for a difference of the two solvers); workspaces and everything else of each Data keep their own history
+    for k in ("qpos", "qvel", "qacc_warmstart", "act", "time"):
+      if getattr(df, k).size:
+        wp.copy(getattr(ds, k), getattr(df, k))
   # ---- direct call of the compact solvers on a flag-free Data with a DOF capacity (as the repository's tests do)
   dn = mw.make_data(mjm_f, mf, sts, nconmax=NCONMAX, njmax=NJMAX, nvmax=mjm_f.nv)
   mjw.forward(mf, dn)
@@ -364,6 +438,10 @@ def run_equiv(case, rec):
     ctx = f"[direct solve_compact world {w} nefc {int(base['nefc'][w])}]"
     if int(base["solver_niter"][w]) >= ITER or int(got["solver_niter"][w]) >= ITER:
       rec.count("direct:ungated_iterlimit")
+      continue
+    nb = int(base["nefc"][w])
+    if not np.all(np.isfinite(base["qacc"][w])) or (nb and float(np.abs(dn.efc.D.numpy()[w][:nb]).max()) > 1e10):
+      rec.count("direct:ungated_degenerate_reference")
       continue
     compare_world(rec, mf, {"qacc_smooth": got_s, **got}, base, w, ("qacc_smooth", "qacc", "qfrc_constraint"), ctx, tally="direct")
   rec.cover("equiv_worlds", W)
@@ -501,6 +579,7 @@ def run_frozen(case, rec, sweep=False):
     return ds, pre, mid
 
   ds, pre, mid = observe(None)
+  certf = [None]
   Rs, Rf = _isl.Rows(ms, ds), _isl.Rows(mf, df)
   if not sweep:
     nfro = nawk = 0
@@ -528,8 +607,12 @@ def run_frozen(case, rec, sweep=False):
         elif awake_rows(mjm_s, Rs, ds, w, awake) != awake_rows(mjm_s, Rf, df, w, awake):
           # e.g. trees woken by wake_equality get their contacts one step later (as in MuJoCo): different problem, not judged
           rec.count("frozen:ungated_awake_row_structure")
+        elif not np.all(np.isfinite(full["qacc"][w])) or (int(mid["nefc"][w]) and float(np.abs(mid["_D"][w][: int(mid["nefc"][w])]).max()) > 1e10):
+          rec.count("frozen:ungated_degenerate_reference")
         else:
-          compare_world(rec, ms, mid, full, w, ("qacc_smooth", "qacc", "qfrc_constraint"), ctx, dofs=act, tally="frozen_awake")
+          cf = Certifier(mjw, mjm_f, mf, sts)(pre["qpos"], pre["qvel"], mid["qacc"], full["qacc"], 0) if certf[0] is None else certf[0]
+          certf[0] = cf
+          compare_world(rec, ms, mid, full, w, ("qacc_smooth", "qacc", "qfrc_constraint"), ctx, dofs=act, tally="frozen_awake", certify=cf)
       if other_viol(rec):
         break
     # one integrator step: frozen DOFs keep qpos / qvel
